@@ -119,3 +119,17 @@ package executors
 //@   ensures implies(result, ctExecutes == old(ctExecutes) + 1 && ctExecArg == ctBatch) && implies(!result, ctExecutes == old(ctExecutes))
 //@   call executeTasks#0: assert arg_tasks == ctBatch
 //@   modifies wg(pe.waitGroup), ctExecutes, ctExecArg, ctRemoveAlls, ctBatch
+
+// the flusher goroutine: a batch handed over through `commander` is registered with the wait group BEFORE the producer is
+// released (confirmChan), so that a Wait that starts after Add returned covers it; every received batch goes to
+// executeTasks exactly once
+//@ func (pe *PeriodicalExecutor) backgroundFlush closure 0
+//@   property C11
+//@   flag nolock callbacks_noheap
+//@   requires pe.container != nil
+//@   ghost at entry: w0 = wg(pe.waitGroup)
+//@   ghost at arm pe.commander: w0 = wg(pe.waitGroup)
+//@   call send#0: assert wg(pe.waitGroup) == w0 + 1
+//@   call executeTasks#0: assert arg_tasks == vals
+//@   loop 0: modifies wg(pe.waitGroup), ctExecutes, ctExecArg, ctRemoveAlls, ctBatch, pe.inflight, pe.guarded
+//@   loop 0: invariant pe.container != nil
